@@ -376,13 +376,27 @@ func pipelineFamily(r *lib.Run) {
 					r.LogCase(map[string]any{"family": "pipeline", "history": h})
 				}
 				cnt["histories"]++
-				steps := 2 + rng.Intn(4)
+				// the step script is drawn up front, so the case list does not depend on outcomes
+				type step struct {
+					closeOne  bool
+					pick      int
+					mode, via string
+					extra     []byte
+					keep      bool
+				}
+				script := make([]step, 2+rng.Intn(4))
+				for i := range script {
+					script[i] = step{rng.Intn(4) == 0, rng.Intn(1 << 16), pipeModes[rng.Intn(len(pipeModes))], pickVia(rng), genExtra(rng), rng.Intn(3) != 0}
+				}
 				var opened []*pAttempt
 				openBy, openBySp := map[string]int{}, map[string]int{}
 				bad := false
-				for st := 0; st < steps && !bad; st++ {
-					if len(opened) > 0 && rng.Intn(4) == 0 {
-						i := rng.Intn(len(opened))
+				for _, sp := range script {
+					if bad {
+						break
+					}
+					if len(opened) > 0 && sp.closeOne {
+						i := sp.pick % len(opened)
 						a := opened[i]
 						opened = append(opened[:i], opened[i+1:]...)
 						h.Steps = append(h.Steps, "close "+a.FwdTo)
@@ -395,8 +409,8 @@ func pipelineFamily(r *lib.Run) {
 						openBy[k]--
 						openBySp[a.FwdTo]--
 					} else {
-						mode, via := pipeModes[rng.Intn(len(pipeModes))], pickVia(rng)
-						a := openPipe(routes, sm, suffix, mode, via, genExtra(rng), 3*len(backends)+6)
+						mode, via := sp.mode, sp.via
+						a := openPipe(routes, sm, suffix, mode, via, sp.extra, 3*len(backends)+6)
 						r.Eval(1)
 						if !a.Done {
 							r.Inconclusive("pipelined attempt neither forwarded nor closed within the watchdog")
@@ -415,7 +429,7 @@ func pipelineFamily(r *lib.Run) {
 						checkAttempt(r, w, h, a.attempt, openBy, openBySp, measured, true)
 						_, _, p, _, _ := canon(a.FwdTo)
 						switch {
-						case a.Forwarded && w.kind[p] == kHealthy && rng.Intn(3) != 0:
+						case a.Forwarded && w.kind[p] == kHealthy && sp.keep:
 							opened = append(opened, a)
 							k, _, _, _, _ := canon(a.FwdTo)
 							openBy[k]++
